@@ -46,7 +46,7 @@ def generate(ctx):
         u = rng.uniform
         yield {"part": "reducer", "kind": kind, "dt": dt, "duration": durk * dt, "inclusive": rng.random() < 0.5,
                "inplace": rng.random() < 0.5, "tc": round(u(0.4, 50.0), 3) if cont else rng.choice([2.0, 5.0, 20.0, 0.7]),
-               "amp": round(u(-3.0, 3.0), 3) if cont else rng.choice([1.0, 0.5, -1.0, 2.5, -0.25]),
+               "amp": round(rng.choice([-1, 1]) * u(0.01, 3.0), 3) if cont else rng.choice([1.0, 0.5, -1.0, 2.5, -0.25]),   # documented: nonzero
                "scale": round(u(-2.0, 2.5), 3) if cont else rng.choice([1.0, -0.5, 0.0, 2.0]),
                "obs": rng.choice(["bool", "real"]), "tolerance": rng.choice([None, 0.1, 0.5, 0.25]), "target": rng.choice([1.0, 0.0, 2.5]),
                "initial": rng.choice(["inf", "zero", "nan"]), "alpha": round(u(0.0, 1.0), 4) if cont else rng.choice([0.0, 0.1, 0.5, 0.9, 1.0]),
